@@ -51,9 +51,10 @@ def build_cover(rng, n_motifs, cyclic, kinds=("e", "e", "t", "k4", "c4", "d", "h
     return motifs
 
 
-def make_graph(motifs):
+def make_graph(motifs, isolated=0):
     import networkx as nx
     G = nx.Graph()
+    G.add_nodes_from(range(900, 900 + isolated))        # vertices that belong to no motif (common in generated networks)
     for mid, vs, es in motifs:
         label = "%d-%s-%s-%d" % (len(vs), str(list(vs)), str([tuple(e) for e in es]), mid)
         for a, b in es:
@@ -75,16 +76,33 @@ def run_once(case):
     """one theoretical(phi) call on a fresh object with every table access recorded"""
     import gcmpy
     motifs = [(m[0], list(m[1]), [tuple(e) for e in m[2]]) for m in case["motifs"]]
-    G = make_graph(motifs)
+    G = make_graph(motifs, case.get("isolated", 0))
     phi = case["phi"]
     phi_kind = "zero" if phi == 0 else "one" if phi == 1 else "interior"
     events = []
+
+    bulk = []
 
     class RecDict(dict):
         def __getitem__(self, k):
             v = dict.__getitem__(self, k)
             events.append(("r", k, v))
             return v
+
+        def get(self, k, d=None):
+            if k in self:
+                return self[k]
+            return d
+
+        # bulk access (items / values / iteration) cannot be attributed to single messages: the read clauses are then not judged
+        def items(self):
+            bulk.append(len(events)); return dict.items(self)
+
+        def values(self):
+            bulk.append(len(events)); return dict.values(self)
+
+        def __iter__(self):
+            bulk.append(len(events)); return dict.__iter__(self)
 
         def __setitem__(self, k, v):
             events.append(("w", k, v))
@@ -100,7 +118,7 @@ def run_once(case):
             self.__dict__["_H"] = RecDict(d)
     tr = {"kind": "run", "case": case, "cover": [{"id": mid, "V": vs, "E": [list(e) for e in es]} for mid, vs, es in motifs], "nodes": [int(v) for v in G.nodes()],
           "N": G.order(), "phi_kind": phi_kind, "iterations": case["iterations"], "events_known": False, "init_keys": [], "init_all_half": True,
-          "updates": [], "final_reads": [], "raised": "", "answer_is_zero": False, "answer_decided": False,
+          "updates": [], "final_reads": [], "final_reads_known": False, "raised": "", "answer_is_zero": False, "answer_decided": False,
           "answer": {"n": 0, "ok": False, "D": 1}, "table": [], "xmax": 0}
     try:
         mp = RecMP(G, iterations=case["iterations"])
@@ -153,6 +171,9 @@ def run_once(case):
                         tr["updates"][-1].update({"spot": True, "K": K, "wn": n, "wok": bool(ok)})
                 reads, pk = [], []
         tr["final_reads"] = [[int(r[0][0]), int(r[0][1])] for r in reads]
+        tr["final_reads_known"] = bool(reads) and not bulk
+        if bulk:
+            tr["events_known"] = False       # the table was read in bulk somewhere: per-message bookkeeping not observable
         if len(tr["updates"]) > 4000:
             tr["updates"] = tr["updates"][:2000] + tr["updates"][-2000:]
         final = dict(mp._H_tau)
@@ -172,9 +193,12 @@ def run_once(case):
     return tr
 
 
+ISOLATED = [0]      # number of isolated vertices added by plain() (set per cover by run())
+
+
 def plain(motifs, phi, iterations, obj=None):
     import gcmpy
-    mp = obj or gcmpy.MessagePassing(make_graph(motifs), iterations=iterations)
+    mp = obj or gcmpy.MessagePassing(make_graph(motifs, ISOLATED[0]), iterations=iterations)
     return mp, mp.theoretical(phi)
 
 
@@ -235,14 +259,16 @@ def run(chk):
     covers.append([(1, [1, 2, 3], [(1, 2), (1, 3), (2, 3)]), (2, [1, 4], [(1, 4)]), (3, [2, 5], [(2, 5)])])
     covers.append([(1, [1, 2], [(1, 2)]), (2, [2, 3], [(2, 3)]), (3, [3, 1], [(3, 1)])])
     for ci, motifs in enumerate(covers):
+        iso = [0, 0, 2, 1][ci % 4]
+        ISOLATED[0] = iso
         for phi in (0, 1, 0.5, 0.3, 0.85):
             for it in ((1, 2, 5) if phi in (0, 1) else (1, 3)):
-                traces.append(run_once({"motifs": motifs, "phi": phi, "iterations": it}))
-        traces.append(run_once({"motifs": motifs, "phi": 1, "iterations": 30}))
+                traces.append(run_once({"motifs": motifs, "phi": phi, "iterations": it, "isolated": iso}))
+        traces.append(run_once({"motifs": motifs, "phi": 1, "iterations": 30, "isolated": iso}))
         traces.append(run_history({"motifs": motifs, "phis": rng.sample([0, 0.1, 0.25, 0.5, 0.5, 0.75, 1, 1, 0.3, 0.9, 0.15], 6),
                                    "iterations": rng.choice([1, 5, 25])}))
         for it in ((1, 5, 25) if (thorough or ci % 4 == 0) else (rng.choice([1, 5]),)):
-            traces.append(run_curve({"motifs": motifs, "points": 40 if thorough else (20 if ci % 4 == 0 else 10), "iterations": it}))
+            traces.append(run_curve({"isolated": iso, "motifs": motifs, "points": 40 if thorough else (20 if ci % 4 == 0 else 10), "iterations": it}))
         if thorough or ci % 3 == 0:
             # away from slow-convergence points: 120 against 121 sweeps must agree to 1e-5 (measured: exactly equal on 60 random covers)
             for phi in (0.15, 0.5):
